@@ -12,8 +12,12 @@ build_tsim() {
     # the crate under test is compiled from a generated copy of /repo/src in which std's synchronisation
     # primitives are shuttle's (every atomic / lock / thread operation becomes a scheduling point)
     python3 "$ROOT/tools/mk_shuttle_src.py" >/dev/null || { echo "harness error: mk_shuttle_src failed"; exit 2; }
+    (cd "$H/shuttle-ws" && cargo build --release -p tsim -q 2>"$H/target/build-tsim.log") && return 0
+    # shuttle's thread_local! offers less API than std's: if the crate needs more, its thread-locals stay std's
+    python3 "$ROOT/tools/mk_shuttle_src.py" --std-tls >/dev/null || { echo "harness error: mk_shuttle_src failed"; exit 2; }
     (cd "$H/shuttle-ws" && cargo build --release -p tsim -q 2>"$H/target/build-tsim.log") || {
         echo "harness error: tsim build failed"; tail -n 30 "$H/target/build-tsim.log"; exit 2; }
+    echo "note: the crate's thread_local! statics stay std's in the shuttle build (they use more of LocalKey than shuttle offers)"
 }
 build_msim() {
     (cd "$H/msim" && cargo build -q 2>"$H/target/build-msim.log") || {
@@ -64,7 +68,7 @@ quick|thorough)
     build_tsim
     EV="$ROOT/evidence/C16.json"; rm -f "$EV"
     T1=$(mktemp "$H/target/ev.XXXXXX")
-    "$TSIM" check --tier "$TIER" --evidence "$T1" --replays "$ROOT/replays" ${C16_TSIM_ITERATIONS:+--iterations "$C16_TSIM_ITERATIONS"}
+    (ulimit -v 16777216 2>/dev/null; "$TSIM" check --tier "$TIER" --evidence "$T1" --replays "$ROOT/replays" ${C16_TSIM_ITERATIONS:+--iterations "$C16_TSIM_ITERATIONS"})
     rc=$?
     [ $rc -ge 2 ] && { rm -f "$T1"; exit 2; }
     miri_json='{"ran": false, "reason": "Miri layer runs in the thorough tier only (1.5-5 min per seed)"}'
